@@ -127,6 +127,7 @@ def load(modname):
 
 def lookup(qualname):
     """'model:Compartment.update' or 'optimization:constrain_sum_bounded' -> FuncInfo"""
+    qualname = qualname.split("#")[0]  # "#variant" distinguishes several contracts on one function
     modname, rest = qualname.split(":")
     m = load(modname)
     if "." in rest:
